@@ -10,6 +10,22 @@ Definition sess_le (x y : session) : Prop :=
 
 Definition matches (pid ts : Z) (x : session) : bool := (se_pid x =? pid) && (se_start x <=? ts).
 
+Lemma sess_matches_eq : forall pid ts x, sess_matches pid ts x = matches pid ts x.
+Proof.
+  intros. unfold sess_matches, matches, fs_pid_gt, fs_pid_lt, fs_start_gt.
+  destruct (se_pid x >? pid) eqn:E1; destruct (se_pid x <? pid) eqn:E2; destruct (se_start x >? ts) eqn:E3;
+    destruct (se_pid x =? pid) eqn:E4; destruct (se_start x <=? ts) eqn:E5; cbn; try reflexivity; lia.
+Qed.
+
+Lemma insert_cond_eq : forall x s,
+  cs_pid_gt (se_pid x) (se_pid s) || (negb (cs_pid_lt (se_pid x) (se_pid s)) && cs_start_gt (se_start x) (se_start s)) =
+  (se_pid x >? se_pid s) || ((se_pid x =? se_pid s) && (se_start x >? se_start s)).
+Proof.
+  intros. unfold cs_pid_gt, cs_pid_lt, cs_start_gt.
+  destruct (se_pid x >? se_pid s) eqn:E1; destruct (se_pid x <? se_pid s) eqn:E2;
+    destruct (se_pid x =? se_pid s) eqn:E4; cbn; try reflexivity; lia.
+Qed.
+
 Lemma sess_le_trans : forall x y z, sess_le x y -> sess_le y z -> sess_le x z.
 Proof. unfold sess_le; intros; lia. Qed.
 
@@ -17,7 +33,7 @@ Lemma insert_session_In : forall s l x, In x (insert_session s l) <-> x = s \/ I
 Proof.
   induction l as [|y r IH]; intros x; cbn.
   - intuition.
-  - destruct ((se_pid y >? se_pid s) || ((se_pid y =? se_pid s) && (se_start y >? se_start s))); cbn.
+  - rewrite insert_cond_eq. destruct ((se_pid y >? se_pid s) || ((se_pid y =? se_pid s) && (se_start y >? se_start s))); cbn.
     + intuition.
     + rewrite IH. intuition.
 Qed.
@@ -27,7 +43,7 @@ Proof.
   induction l as [|y r IH]; intros Hs; cbn.
   - repeat constructor.
   - inversion Hs as [|? ? Hr Hall]; subst.
-    destruct ((se_pid y >? se_pid s) || ((se_pid y =? se_pid s) && (se_start y >? se_start s))) eqn:E.
+    rewrite insert_cond_eq. destruct ((se_pid y >? se_pid s) || ((se_pid y =? se_pid s) && (se_start y >? se_start s))) eqn:E.
     + constructor; auto. constructor.
       * unfold sess_le. lia.
       * rewrite Forall_forall in *. intros z Hz. specialize (Hall z Hz). unfold sess_le in *. lia.
@@ -45,7 +61,7 @@ Lemma find_session_go_spec : forall l pid ts best,
 Proof.
   induction l as [|y r IH]; intros pid ts best; cbn [find_session_go].
   - right. split; auto. intros x [].
-  - fold (matches pid ts y).
+  - rewrite sess_matches_eq.
     destruct (IH pid ts (if matches pid ts y then Some y else best)) as [(l1 & s & l2 & E & Hm & Hn & Hf)|[Hn Hf]].
     + left. exists (y :: l1), s, l2. subst r. repeat split; auto.
     + destruct (matches pid ts y) eqn:Ey.
@@ -100,7 +116,7 @@ Proof.
   induction l as [|y r IH]; intros Hs; cbn.
   - exists [], []. repeat split; auto. intros x [].
   - inversion Hs as [|? ? Hr Hall]; subst.
-    destruct ((se_pid y >? se_pid s) || ((se_pid y =? se_pid s) && (se_start y >? se_start s))) eqn:E.
+    rewrite insert_cond_eq. destruct ((se_pid y >? se_pid s) || ((se_pid y =? se_pid s) && (se_start y >? se_start s))) eqn:E.
     + exists [], (y :: r). repeat split; auto. intros x [<-|Hx].
       * unfold key_gt. lia.
       * rewrite Forall_forall in Hall. specialize (Hall x Hx). unfold key_gt, sess_le in *. lia.
@@ -115,7 +131,7 @@ Lemma find_session_go_nomatch : forall l pid ts best, (forall x, In x l -> match
   find_session_go l pid ts best = best.
 Proof.
   induction l as [|y r IH]; intros pid ts best H; cbn; auto.
-  pose proof (H y (or_introl eq_refl)) as Hy. unfold matches in Hy. rewrite Hy.
+  pose proof (H y (or_introl eq_refl)) as Hy. rewrite sess_matches_eq, Hy.
   apply IH. intros x Hx. apply H. now right.
 Qed.
 
@@ -126,7 +142,7 @@ Lemma find_session_latest_of_equal : forall l s pid ts, StronglySorted sess_le l
 Proof.
   intros l s pid ts Hs Hp Ht Hmax. unfold find_session.
   destruct (insert_session_split s l Hs) as (l1 & l2 & E1 & E2 & H2).
-  rewrite E1, find_session_go_app. cbn [find_session_go].
+  rewrite E1, find_session_go_app. cbn [find_session_go]. rewrite sess_matches_eq. unfold matches at 1.
   replace ((se_pid s =? pid) && (se_start s <=? ts)) with true by lia.
   apply find_session_go_nomatch. intros x Hx. unfold matches.
   specialize (H2 x Hx). unfold key_gt in H2.
@@ -198,10 +214,10 @@ Lemma chain_find_some : forall refs r0 t, chain_ok (r0 :: refs) = true -> r_star
   exists r, find_ref (r0 :: refs) t = Some r.
 Proof.
   induction refs as [|r1 more IH]; intros r0 t Hc Ht.
-  - cbn in Hc. cbn. replace (r_start r0 <=? t) with true by lia.
+  - cbn in Hc. cbn. unfold ref_contains. replace (r_start r0 <=? t) with true by lia.
     replace (t <? r_end r0) with true by lia. cbn. eauto.
   - cbn [chain_ok] in Hc. apply andb_prop in Hc. destruct Hc as [Hc H3]. apply andb_prop in Hc. destruct Hc as [H1 H2].
-    cbn [find_ref]. destruct ((r_start r0 <=? t) && (t <? r_end r0)) eqn:E; [eauto|].
+    cbn [find_ref]. unfold ref_contains. destruct ((r_start r0 <=? t) && (t <? r_end r0)) eqn:E; [eauto|].
     apply IH; auto. lia.
 Qed.
 
@@ -212,7 +228,7 @@ Lemma find_ref_chain : forall refs t best, chain_ok refs = true -> 0 <= t < U64M
   spec_ref refs t best = match find_ref refs t with Some r => Some r | None => best end.
 Proof.
   induction refs as [|r0 more IH]; intros t best Hc Ht Hb; [reflexivity|].
-  cbn [spec_ref find_ref].
+  cbn [spec_ref find_ref]. unfold ref_contains.
   assert (Hc' : chain_ok more = true).
   { destruct more; [reflexivity|]. cbn [chain_ok] in Hc. apply andb_prop in Hc. tauto. }
   destruct (r_start r0 <=? t) eqn:E1.
@@ -290,14 +306,14 @@ Proof. intros fuel ts t time r H. cbn [find_task_session_go]. rewrite H. reflexi
 
 (* ------------------------------------------------------------------ dlopen'ed libraries *)
 Definition dl_hit (time a : Z) (d : dlib) : option sym :=
-  if d_time d >? time then None else find_sym (d_tab d) ((a - d_base d) mod W64).
+  if dl_later (d_time d) time then None else find_sym (d_tab d) ((a - d_base d) mod W64).
 
 Lemma find_dlsym_rev_app : forall l1 l2 time a,
   find_dlsym_rev (l1 ++ l2) time a =
   match find_dlsym_rev l1 time a with Some s => Some s | None => find_dlsym_rev l2 time a end.
 Proof.
   induction l1 as [|d r IH]; intros l2 time a; cbn; auto.
-  destruct (d_time d >? time); auto.
+  destruct (dl_later (d_time d) time); auto.
   destruct (find_sym (d_tab d) ((a - d_base d) mod W64)); auto.
 Qed.
 
@@ -306,7 +322,7 @@ Lemma find_dlsym_rev_none : forall l time a, (forall d, In d l -> dl_hit time a 
 Proof.
   induction l as [|d r IH]; intros time a H; cbn; auto.
   pose proof (H d (or_introl eq_refl)) as Hd. unfold dl_hit in Hd.
-  destruct (d_time d >? time); [apply IH; intros; apply H; now right|].
+  destruct (dl_later (d_time d) time); [apply IH; intros; apply H; now right|].
   rewrite Hd. apply IH; intros; apply H; now right.
 Qed.
 
@@ -315,7 +331,7 @@ Lemma dlsym_not_before_load : forall s time a,
   (forall d, In d (se_dl s) -> time < d_time d) -> find_dlsym s time a = None.
 Proof.
   intros s time a H. unfold find_dlsym. apply find_dlsym_rev_none.
-  intros d Hd. apply in_rev in Hd. specialize (H d Hd). unfold dl_hit.
+  intros d Hd. apply in_rev in Hd. specialize (H d Hd). unfold dl_hit, dl_later.
   replace (d_time d >? time) with true by lia. reflexivity.
 Qed.
 
@@ -329,7 +345,7 @@ Proof.
   intros s l1 d l2 time a x E Ht Hx Hl2. unfold find_dlsym. rewrite E.
   rewrite rev_app_distr. cbn [rev]. rewrite <- app_assoc. rewrite find_dlsym_rev_app.
   rewrite find_dlsym_rev_none by (intros d' Hd'; apply Hl2; now apply in_rev).
-  cbn. replace (d_time d >? time) with false by lia. rewrite Hx. reflexivity.
+  cbn. unfold dl_later. replace (d_time d >? time) with false by lia. rewrite Hx. reflexivity.
 Qed.
 
 Lemma dlsym_sound : forall s time a x, find_dlsym s time a = Some x ->
@@ -338,7 +354,7 @@ Proof.
   intros s time a x. unfold find_dlsym.
   assert (forall l, find_dlsym_rev l time a = Some x ->
             exists d, In d l /\ d_time d <= time /\ find_sym (d_tab d) ((a - d_base d) mod W64) = Some x).
-  { induction l as [|d r IH]; cbn; [discriminate|]. intros H.
+  { induction l as [|d r IH]; cbn; [discriminate|]. intros H. unfold dl_later in H.
     destruct (d_time d >? time) eqn:E.
     - destruct (IH H) as (d' & A & B & C). exists d'. auto.
     - destruct (find_sym (d_tab d) ((a - d_base d) mod W64)) eqn:F.
@@ -353,7 +369,7 @@ Lemma insert_dl_sorted : forall d l, StronglySorted (fun x y => d_time x <= d_ti
 Proof.
   induction l as [|y r IH]; intros Hs; cbn.
   - repeat constructor.
-  - inversion Hs as [|? ? Hr Hall]; subst.
+  - inversion Hs as [|? ? Hr Hall]; subst. unfold dl_insert_before.
     destruct (d_time y >? d_time d) eqn:E.
     + constructor; auto. constructor; [lia|].
       rewrite Forall_forall in *. intros z Hz. specialize (Hall z Hz). lia.
@@ -361,7 +377,7 @@ Proof.
       assert (Hin : forall x, In x (insert_dl d r) -> x = d \/ In x r).
       { clear. induction r as [|q r IH]; cbn; intros x Hx.
         - destruct Hx; auto.
-        - destruct (d_time q >? d_time d); cbn in Hx.
+        - unfold dl_insert_before in Hx. destruct (d_time q >? d_time d); cbn in Hx.
           + destruct Hx as [<-|[<-|Hx]]; auto.
           + destruct Hx as [<-|Hx]; auto. destruct (IH _ Hx); auto. }
       destruct (Hin z Hz) as [->|Hz']; [lia|auto].
